@@ -977,6 +977,14 @@ int check_main(int argc, char **argv, Engine &engine) {
   for (auto &v : violations) {
     // message digits are folded so that one defect = one group
     std::string key = v.vclass + "|" + v.signature.dump();
+    if (v.vclass == "sanitizer" || v.vclass == "memcheck") {
+      // different reports are different defects (one of them may be a
+      // listed finding): group by the report text with the numbers folded
+      std::string t;
+      for (char ch : v.message.substr(0, 160))
+        t += (ch >= '0' && ch <= '9') ? '#' : ch;
+      key += "|" + t;
+    }
     ++group_counts[key];
     if (!groups.count(key))
       groups[key] = v;
